@@ -623,21 +623,46 @@ Proof.
   intro U. rewrite !lex_print_comb by assumption. f_equal. now apply toks_comb_bar_irrelevant.
 Qed.
 
-(** F8: a union with one variant loses its bar *)
+(** F8 (repaired in /repo by commit 3b6a30bc): a union with one variant keeps its bar *)
+Definition single_union (c : comb) : bool :=
+  match c_decl c with
+  | DType _ _ _ (DUnion [_]) | DFunc _ _ _ (DUnion [_]) => true
+  | _ => false
+  end.
+
+Theorem single_variant_keeps_bar : forall o c, single_union c = true -> comb_bar o c = true.
+Proof.
+  intros o [cm anns [nm m ps d|nm m args d]] H; unfold single_union in H; cbn [c_decl] in H;
+    destruct d as [|?|[|v [|? ?]]]; try discriminate;
+    unfold comb_bar, decl_bar; cbn [c_decl c_anns]; cbn zeta; unfold def_bar; cbn [length Nat.eqb]; apply orb_true_r.
+Qed.
+
 Definition nA : str := [65].
 Definition tA : tref := TApp (TName [] nA) false [].
 Definition f8_union : comb := Comb [] [] (DFunc (TName [] [102]) 1 [] (DUnion [Variant nA [] (VFields [])])).
 Definition f8_struct : comb := Comb [] [] (DFunc (TName [] [102]) 1 [] (DStruct [Field [] false false [] tA])).
 Definition f8_type_union : comb := Comb [] [] (DType (TName [] [97]) 0 [] (DUnion [Variant nA [] (VFields [])])).
-Definition f8_type_struct : comb := Comb [] [] (DType (TName [] [97]) 0 [] (DStruct [Field [] false false [] tA])).
 
-Theorem fmt2_refuted_single_variant :
-  exists c c', c <> c' /\
-    wf_comb default_options c = true /\ wf_comb default_options c' = true /\
-    (forall o, o = default_options \/ o = canonical_options -> print_comb o c = print_comb o c') /\
-    is_union c = true /\ is_union c' = false /\ comb_bar canonical_options c = false.
+(* the code before the repair: the union loop without the [single] disjunct *)
+Definition print_def_nl_old (o : options) (d : typedef) (force : bool) (isret : bool) : str * bool :=
+  match d with
+  | DUnion vs =>
+      let head := if negb isret then s_sp_eq_sp else [] in
+      let has := negb (o_ignore o) && existsb variant_has_comment vs in
+      let force1 := force || has in
+      let sep := (if force1 then s_nl_tab else s_sp) ++ s_bar_sp in
+      let '(t, f) := print_variants o sep false true force1 vs in
+      (head ++ t, f)
+  | _ => print_def_nl o d force isret
+  end.
+
+(* historical: before the repair the one-line text of a one-variant union was the text of a struct with one
+   anonymous field (`=> A`, ` = A`), for both option sets, so no parser could give the union back *)
+Theorem fmt2_old_single_variant_refuted :
+  exists v f, forall o isret, o = default_options \/ o = canonical_options ->
+    fst (print_def_nl_old o (DUnion [v]) false isret) = fst (print_def_nl o (DStruct [f]) false isret) /\
+    fst (print_def_nl o (DUnion [v]) false isret) <> fst (print_def_nl o (DStruct [f]) false isret).
 Proof.
-  exists f8_union, f8_struct. split; [discriminate|].
-  split; [vm_compute; reflexivity|]. split; [vm_compute; reflexivity|].
-  split; [intros o [-> | ->]; vm_compute; reflexivity|]. repeat split; vm_compute; reflexivity.
+  exists (Variant nA [] (VFields [])), (Field [] false false [] tA).
+  intros o isret [-> | ->]; destruct isret; split; vm_compute; congruence.
 Qed.
